@@ -112,14 +112,27 @@ def data_session(seed, n_steps=120, faults=True, with_close=False, with_partial=
     nchan = rng.randint(1, 5)
     pool = rng.sample([0, 1, 2, 3, 63, 64, 127, 128, 8191, 8192, 16384, 32766], nchan)
     closed = {1: set(), 2: set()}
+    budget = {"pk": 0, "rel": {}}
+
+    def sync():
+        # fault-free exchange: afterwards nothing is awaiting a verdict (keeps the run inside the send window
+        # and inside 256 unacknowledged reliable bunches per channel, as the properties require of the sender)
+        drain(s, 1, 2, rounds=4, update=False)
+        budget["pk"] = 0
+        budget["rel"] = {}
+
     for step in range(n_steps):
         side = rng.choice([1, 2])
         other = 3 - side
         r = rng.random()
+        if budget["pk"] > 150 or any(v > 150 for v in budget["rel"].values()):
+            sync()
         if r < 0.45:
             ch = rng.choice(pool)
             if ch in closed[side] or ch in closed[other]:
                 continue
+            if with_close and pool.index(ch) % 2 != side % 2:
+                continue  # sessions that close channels use each channel in one direction only (data flowing *toward* a closer is outside C01/C10)
             st = chans[side].get(ch)
             if window_respect:
                 s.op("wb %d 3" % side)
@@ -144,13 +157,19 @@ def data_session(seed, n_steps=120, faults=True, with_close=False, with_partial=
             if with_partial and rng.random() < 0.25 and not (flags & FLAG["open"]):
                 # a partial group
                 k = rng.randint(2, 5) if not big_groups else rng.choice([2, 3, 50, 255, 256])
-                lose = rng.random() < 0.3 and not reliable
+                if k > 40:
+                    sync()
+                budget["pk"] += k + 1
+                if reliable:
+                    budget["rel"][(side, ch)] = budget["rel"].get((side, ch), 0) + k
                 for i in range(k):
                     fl = flags | FLAG["partial"] | (FLAG["pinit"] if i == 0 else 0) | (FLAG["pfinal"] if i == k - 1 else 0)
                     bits = payload_bits(rng, small=k > 8) if i == k - 1 else (rng.choice([7264, 7264, payload_bits(rng, small=k > 8)]) if k <= 8 else payload_bits(rng, small=True))
                     s.op("send %d %d %d %d %d %d %d" % (side, ch, fl, 0, name, bits, s.next_pseed()))
                     if not reliable and rng.random() < 0.15:
                         s.op("flush %d" % side)  # fragments in consecutive packets
+                if k > 40:
+                    sync()
             else:
                 if with_close and st["nrel"] >= 0 and rng.random() < 0.12 and not (flags & FLAG["open"]):
                     flags |= FLAG["close"] | FLAG["rel"]
@@ -158,6 +177,9 @@ def data_session(seed, n_steps=120, faults=True, with_close=False, with_partial=
                     closed[side].add(ch)
                 bits = payload_bits(rng)
                 s.op("send %d %d %d %d %d %d %d" % (side, ch, flags, reason, name, bits, s.next_pseed()))
+                budget["pk"] += 1
+                if flags & FLAG["rel"]:
+                    budget["rel"][(side, ch)] = budget["rel"].get((side, ch), 0) + 1
             if flags & FLAG["rel"]:
                 st["nrel"] += 1
         elif r < 0.5 and with_invalid:
@@ -182,6 +204,7 @@ def data_session(seed, n_steps=120, faults=True, with_close=False, with_partial=
                 s.op("send %d %d %d %d %d %d %d" % (side, ch, fl, 15, 3, 8, s.next_pseed()))  # close reason 15 cannot be serialised
         elif r < 0.7:
             s.op("flush %d" % side)
+            budget["pk"] += 1
         elif r < 0.78:
             s.op("tick %d" % rng.choice([1000000, 50000000, 199000000, 200000000, 201000000, 250000000]))
         elif r < 0.82 and updates:
@@ -213,6 +236,8 @@ def window_session(seed):
     s.op("send 2 1 9 0 1 8 %d" % s.next_pseed())
     burst = rng.choice([20, 40, 70, 100, 130, 200, 250, 254, 300])
     respect = rng.random() < 0.7
+    if burst > 240:
+        s.note("window-exceeded")
     for i in range(burst):
         if respect:
             s.op("wb 1 1")
@@ -341,6 +366,7 @@ def handshake_session(seed, fates=None, n_fate=6, hostile=False, tick_ms=None, a
         if rotations and rng.random() < 0.2:
             s.op("rot 10")
         if hostile and rng.random() < 0.5:
+            s.note("hostile")
             hostile_ops(s, rng, [1, 2], [1, 2, 10], listener=(10, addr))
         s.op("tick %d" % (tick_ms * 1000000))
         s.op("update 1")
@@ -409,7 +435,7 @@ def hostile_session(seed):
             out += s.ops
     out.append("closed 1")
     out.append("closed 2")
-    return [l for l in out if not l.startswith("#! drain")]
+    return ["#! hostile"] + [l for l in out if not l.startswith("#! drain")]
 
 
 def listener_session(seed):
@@ -458,11 +484,14 @@ def listener_session(seed):
             kind = rng.random()
             if kind < 0.5:
                 # any bit of the payload proper (beyond the magic/session/client/handshake/restart header bits, before padding)
-                s.op("lmut 10 %s %d 0 flip %d 0" % (addr, c, rng.randint(magic[0] + 7, magic[0] + 7 + 32 + 32 + 1 + 64 + 160 - 1)))
+                # any bit of the echoed secret id, timestamp or cookie (layout: magic, 2+3+1 header bits, restart bit, 4 version/type/count bytes, 32-bit net version)
+                s.op("lmut 10 %s %d 0 flip %d 0" % (addr, c, rng.randint(magic[0] + 71, magic[0] + 71 + 1 + 64 + 160 - 1)))
             elif kind < 0.8:
                 s.op("ldlv 10 %s %d 0" % (addr + "x" if len(addr) < 63 else addr[:-1], c))
             else:
                 s.op("lmut 10 %s %d 0 trunc %d 0" % (addr, c, rng.randint(0, 60)))
+        cid += 1
+        s.op("onaccept 10 %s %d" % (addr, cid))
         ok = delay_ms < 40000 and rot <= 1
         if rot >= 2 and delay_ms < 40000:
             # rejected unless both rotations happened at the very instant of the challenge (documented residual case) -- avoid tagging it
@@ -472,12 +501,11 @@ def listener_session(seed):
                 s.note("expect noaccept")
         else:
             s.note("expect accept" if ok else "expect noaccept")
-        cid += 1
-        s.op("onaccept 10 %s %d" % (addr, cid))
         s.op("ldlv 10 %s %d 0" % (addr, c))
         if rng.random() < 0.5:
             s.note("expect any")
             s.op("ldlv 10 %s %d 0" % (addr, c))  # replayed response: accepted again by a stateless listener (allowed by the property: same issued cookie)
+        s.note("hostile")
         hostile_ops(s, rng, [c], [c, 10], listener=(10, addr), n=rng.randint(0, 3))
     return s.ops
 
